@@ -460,6 +460,10 @@ val forallb : ('a1 -> bool) -> 'a1 list -> bool
 
 val find : ('a1 -> bool) -> 'a1 list -> 'a1 option
 
+val firstn : nat -> 'a1 list -> 'a1 list
+
+val skipn : nat -> 'a1 list -> 'a1 list
+
 val repeat : 'a1 -> nat -> 'a1 list
 
 val eqb0 : byte -> byte -> bool
@@ -2035,6 +2039,10 @@ val gint : n -> n g
 val gslice : n -> slice g
 
 val gopt : 'a1 g -> 'a1 option g
+
+val hrr_magic : byte list
+
+val downgrade_sentinel : n -> byte list
 
 val grandom32 : slice g
 
